@@ -633,6 +633,13 @@ def apply_model(model, op):
     if op[0] == 'C':
         m[canon(op[1])] = op[1] + b'\r\n'
         return m, None
+    if op[0] in 'SL':
+        # program files: a name without a dot gets the extension .BAS
+        name = canon(op[1]) if b'.' in op[1] else canon(op[1]) + b'.BAS'
+        if op[0] == 'S':
+            m[name] = PROGRAM_TEXT
+            return m, None
+        return m, (None if m.get(name) == PROGRAM_TEXT else 53)
     if op[0] == 'K' and op[1] in MASKS:
         hit = [k for k in m if dos_match(op[1], k)]
         for k in hit:
@@ -652,7 +659,15 @@ def apply_model(model, op):
     return m, None
 
 
+PROGRAM_LINE = b'1 REM'
+PROGRAM_TEXT = b'1 REM\r\n'
+
+
 def stmt_of(op):
+    if op[0] == 'S':
+        return b'SAVE "%s",A' % op[1]
+    if op[0] == 'L':
+        return b'LOAD "%s"' % op[1]
     if op[0] == 'C':
         return b'OPEN "%s" FOR OUTPUT AS 1:PRINT#1,"%s";:PRINT#1,CHR$(13);CHR$(10);:CLOSE 1' % (op[1], op[1])
     if op[0] == 'K':
@@ -707,7 +722,9 @@ def expand_hist(hist):
 # all short sequences, no state merging: a session may carry state that the host directory does not show
 
 SEQ_OPS = [('K', b'ab'), ('K', b'AB.C'), ('K', b'x1.dat')] + [('K', m) for m in MASKS] + [
-    ('C', b'ab'), ('C', b'aB.c'), ('R', b'ab', b'x1.dat'), ('R', b'AB.C', b'ab'), ('R', b'x1.dat', b'q.c')]
+    ('C', b'ab'), ('C', b'aB.c'), ('R', b'ab', b'x1.dat'), ('R', b'AB.C', b'ab'), ('R', b'x1.dat', b'q.c'),
+    # program files under the same dotless name as a data file (ab -> AB.BAS next to AB)
+    ('S', b'ab'), ('L', b'ab'), ('L', b'AB')]
 SEQ_START = [b'ab', b'AB.C', b'x1.dat']
 
 
@@ -718,6 +735,7 @@ def work_seq(shard):
             e.fresh()
             e.clear()
             model = {}
+            e.run(PROGRAM_LINE)
             for sp in SEQ_START:
                 e.run(stmt_of(('C', sp)))
                 model, _ = apply_model(model, ('C', sp))
@@ -726,7 +744,7 @@ def work_seq(shard):
                 r = e.run(stmt_of(op))
                 now = dict((k, _strip_eof(v)) for k, v in e.listing().items())
                 case = {'seq': [[x.decode('latin-1') if isinstance(x, bytes) else x for x in o] for o in seq]}
-                kind = {'C': 'create', 'K': 'kill', 'R': 'rename'}[op[0]]
+                kind = {'C': 'create', 'K': 'kill', 'R': 'rename', 'S': 'save', 'L': 'load'}[op[0]]
                 part.n += 1
                 if r.exc is not None:
                     part.violation('seq/host-exception/%s' % H.exc_key(r.exc), '%r in %r raised %r' % (op, seq, r.exc), case)
